@@ -107,7 +107,8 @@ _CMP = {ast.Eq: operator.eq, ast.NotEq: operator.ne, ast.Lt: operator.lt,
         ast.LtE: operator.le, ast.Gt: operator.gt, ast.GtE: operator.ge}
 _BIN = {ast.Add: operator.add, ast.Sub: operator.sub, ast.Mult: operator.mul,
         ast.Mod: operator.mod, ast.FloorDiv: operator.floordiv,
-        ast.Pow: operator.pow}
+        ast.Pow: operator.pow, ast.BitAnd: operator.and_, ast.BitOr: operator.or_,
+        ast.BitXor: operator.xor}
 
 
 class Interp:
